@@ -4,7 +4,7 @@
    cycle" are not proved; the full certificate is evaluated exactly per instance instead. *)
 From Coq Require Import Reals List Bool Arith.
 Require Import Cox.Num.Ops Cox.Geo.Vec Cox.Model.Mesh Cox.Model.Structure Cox.Model.Entry
-  Cox.Thm.StructureThm Cox.Thm.ClosedThm Cox.Thm.MeshThm.
+  Cox.Thm.StructureThm Cox.Thm.ClosedThm Cox.Thm.MeshThm Cox.Thm.HandshakeThm.
 Import ListNotations.
 
 (* neighbour lists: j is listed for i exactly when faces i and j are distinct and share an edge *)
@@ -42,6 +42,21 @@ Print Assumptions C07_certificate_planarity.
 Theorem C07_simplices_closed :
   forall (V : list (vec3 R)) tr, closedb tr = true -> closed (resolve Rops V tr).
 Proof. exact closedb_closed. Qed.
+
+(* edges: for a face list of ANY size in which every directed edge occurs once and its reverse once (what the certificate
+   checks per instance) and no edge is degenerate, reversal pairs the directed edges i<j with those i>j, so the edge list
+   Polyhedron.edges (directed edges with i < j) has exactly half as many entries as the faces have corners:
+   num_edges = (sum of face sizes) / 2 *)
+Theorem C07_handshake :
+  forall F, manifold_edges F = true -> (forall e, In e (dedges_all F) -> fst e <> snd e) ->
+    (2 * length (edges_lt F) = list_sum (map (@length nat) F))%nat
+    /\ Permutation.Permutation (map rev2 (filter ltb2 (dedges_all F))) (filter gtb2 (dedges_all F)).
+Proof.
+  intros F HM HL. split.
+  - rewrite <- dedges_count. apply handshake; assumption.
+  - apply reversal_bijection. apply manifold_edges_spec. exact HM.
+Qed.
+Print Assumptions C07_handshake.
 
 (* non-vacuity: the cube *)
 Example C07_cube :
